@@ -651,6 +651,10 @@ func (e *Engine) ApplyContract(st *State, con *contract.Func, recv *Val, args []
 		st.Assume(v.T)
 	}
 	for _, en := range con.Ensures {
+		if mentionsLocalGhost(con, en.Text) {
+			// a clause over the callee's own history variables says nothing a caller can name
+			continue
+		}
 		env := &SpecEnv{E: e, St: st, Old: pre, Bound: b2, Callee: true, Pkg: keyPkg(con.Key)}
 		v, err := e.evalSpec(env, en.Expr)
 		if err != nil {
@@ -1319,4 +1323,15 @@ func (e *Engine) anyFieldID(s string) (int, error) {
 // ApplyTerm is applyTerm for client spec functions.
 func (e *Engine) ApplyTerm(fv Val, args []Val, sig *types.Signature, i int) Val {
 	return e.applyTerm(fv, args, sig, i)
+}
+
+// mentionsLocalGhost: the clause text names one of the contract's "local-ghost" history variables.
+func mentionsLocalGhost(con *contract.Func, text string) bool {
+	for _, a := range con.Attrs["local-ghost"] {
+		name := strings.TrimSpace(a)
+		if name != "" && regexp.MustCompile(`(^|[^\w$.])`+regexp.QuoteMeta(name)+`($|[^\w(])`).MatchString(text) {
+			return true
+		}
+	}
+	return false
 }
